@@ -96,7 +96,12 @@ fn route<'a, E: EndpointMetadata + ?Sized>(endpoints: &'a [Box<E>], method: &Met
                         continue 'outer;
                     }
                 }
-                PathSegment::Parameter { name, .. } => params.insert(name.to_string(), s.to_string()),
+                PathSegment::Parameter { name, .. } => {
+                    // a router that fills the map in two passes (a mount point, then the inner
+                    // template): `insert` on a present key replaces, as for any map
+                    params.insert(name.to_string(), "%FFplaceholder-of-the-outer-router".to_string());
+                    params.insert(name.to_string(), s.to_string())
+                }
             }
         }
         return Some((&**e, params));
